@@ -11,6 +11,8 @@ def explore(ctx, n_h, n_b, big=False):
         hc = orderlib.harness_topn_cases(ctx, n_h)
     except Exception as e:  # harness not buildable after a refactor: binary-only correspondence
         ctx.notes.append("harness: fallback-binary-only (%s)" % str(e)[:200])
+        ctx.violation("correspondence-mismatch", "the real functions could not be reached through the harness (#[path] inclusion of /repo/src): %s" % str(e)[:300], input={}, concrete=False,
+                      correspondence="harness build / run")
         hc = []
     for c in hc:
         st["evaluations"] += 1
